@@ -23,27 +23,37 @@ pub fn tr_dispatch<'a>(_m: &'static tracing::Metadata<'static>, _f: &'a tracing:
 // (`HashMap<ChunkId, Chunk>`, private to that file) is replaced in the scratch copy by this association list with the same
 // new/insert/get/len contract (see "rewrite" in cat_C15.py); the bodies of the parse_* functions are untouched.
 pub struct VMap<K, V> {
-    pub items: Vec<(K, V)>,
+    // inline storage: values read back through `get` stay visible to CBMC's constant propagation (heap cells are not)
+    pub items: [Option<(K, V)>; 24],
+    pub n: usize,
 }
 impl<K: PartialEq, V> VMap<K, V> {
-    pub fn new() -> Self { VMap { items: Vec::new() } }
-    pub fn len(&self) -> usize { self.items.len() }
+    pub fn new() -> Self {
+        VMap { items: [None, None, None, None, None, None, None, None, None, None, None, None, None, None, None, None, None, None, None, None, None, None,
+            None, None], n: 0 }
+    }
+    pub fn len(&self) -> usize { self.n }
     pub fn insert(&mut self, k: K, v: V) -> Option<V> {
         let mut i = 0;
-        while i < self.items.len() {
-            if self.items[i].0 == k {
-                return Some(std::mem::replace(&mut self.items[i].1, v));
+        while i < self.n {
+            if let Some((kk, vv)) = &mut self.items[i] {
+                if *kk == k {
+                    return Some(std::mem::replace(vv, v));
+                }
             }
             i += 1;
         }
-        self.items.push((k, v));
+        self.items[self.n] = Some((k, v));
+        self.n += 1;
         None
     }
     pub fn get(&self, k: &K) -> Option<&V> {
         let mut i = 0;
-        while i < self.items.len() {
-            if self.items[i].0 == *k {
-                return Some(&self.items[i].1);
+        while i < self.n {
+            if let Some((kk, vv)) = &self.items[i] {
+                if *kk == *k {
+                    return Some(vv);
+                }
             }
             i += 1;
         }
